@@ -21,10 +21,7 @@ func digestsHex(m map[string][32]byte) map[string]string {
 
 // C12: every reachable Point is a valid curve point.
 func C12(c *Ctx) {
-	if !raw.PointOK() || !raw.ScalarOK() {
-		c.Inconclusive("raw layout guard failed: history engine needs raw snapshots")
-		return
-	}
+
 	WarmTables()
 	var snap globalsSnapshot
 	if GlobalsAvailable {
@@ -182,7 +179,7 @@ func (h *history) scribbleStep() {
 			if r.Bool() {
 				e.Set(gen.Canon(r.BigBelow(ref.P)))
 			} else {
-				raw.SetLimbs(e, [5]uint64{r.U64() >> 13, r.U64() >> 13, 0, r.U64() >> 13, 1})
+				scribbleElem(e, [5]uint64{r.U64() >> 13, r.U64() >> 13, 0, r.U64() >> 13, 1})
 			}
 			h.log = append(h.log, "scribble over an ExtendedCoordinates element")
 			c.Tally("scribble:element")
@@ -205,7 +202,11 @@ func (h *history) scribbleStep() {
 					l[i][j] = r.U64() >> 13
 				}
 			}
-			raw.SetPointLimbs(p, l)
+			if raw.PointOK() {
+				raw.SetPointLimbs(p, l)
+			} else {
+				p.Subtract(p, edwards25519.NewGeneratorPoint())
+			}
 		default:
 			p.Add(p, h.pts[r.Intn(len(h.pts))])
 		}
@@ -214,14 +215,18 @@ func (h *history) scribbleStep() {
 	case 3:
 		s := edwards25519.NewScalar()
 		s.Add(s, gen.LibScalar(r.BigBelow(ref.L)))
-		raw.SetScalarLimbs(s, [4]uint64{r.U64(), r.U64(), r.U64(), r.U64() >> 4})
+		if l := [4]uint64{r.U64(), r.U64(), r.U64(), r.U64() >> 4}; raw.ScalarOK() {
+			raw.SetScalarLimbs(s, l)
+		} else {
+			s.Negate(s)
+		}
 		h.log = append(h.log, "scribble over a NewScalar result")
 		c.Tally("scribble:scalar")
 	default:
 		// field constructors: One()/Zero() results are the receiver; mutate them
 		e := new(field.Element).One()
 		e.Add(e, e)
-		raw.SetLimbs(e, [5]uint64{r.U64() >> 13, 7, 7, 7, 7})
+		scribbleElem(e, [5]uint64{r.U64() >> 13, 7, 7, 7, 7})
 		z := new(field.Element).Zero()
 		z.Subtract(z, e)
 		h.log = append(h.log, "scribble over One()/Zero() receivers")
@@ -229,11 +234,19 @@ func (h *history) scribbleStep() {
 	}
 }
 
+// scribbleElem overwrites e: raw limbs when the layout is the known one, else through Set.
+func scribbleElem(e *field.Element, l [5]uint64) {
+	if raw.ElementOK() {
+		raw.SetLimbs(e, l)
+		return
+	}
+	e.Set(gen.Canon(raw.LimbValue(l).Mod(raw.LimbValue(l), ref.P)))
+}
+
 // C19: returned values are fresh; operations are pure functions of their arguments.
 func C19(c *Ctx) {
 	if !raw.PointOK() || !raw.ScalarOK() || !raw.ElementOK() {
-		c.Inconclusive("raw layout guard failed: history engine needs raw snapshots")
-		return
+		c.Inconclusive("raw layout guard failed: mutation steps use the public API only (no raw scribbling)")
 	}
 	cold := c.Worker%2 == 1
 	var snap globalsSnapshot
